@@ -5,6 +5,7 @@
 -/
 import Gama.Lemmas.C07MirrorSigma
 import Gama.Lemmas.C07MirrorGram
+import Gama.Lemmas.C07MirrorDegen
 namespace Gama.Props.C07MirrorSigma
 open Gama Gama.Ls Gama.Ls.Net Gama.Cov.YSign Matrix
 attribute [local instance 2000] scalarOfField
@@ -60,6 +61,30 @@ theorem C07_normal_matrix_mirrored {K : Type} [Field K] {m n : Type} [Fintype m]
           simp only [Matrix.mul_assoc]
       _ = diagonal t * (Aᵀ * P * A) * diagonal t := by rw [hss, Matrix.one_mul, Matrix.mul_one]
   rw [e, mul_diagonal, diagonal_mul]
+
+
+/-- **the numeric half of `singular_coords` gives the same verdict on the mirrored assembled problem** (route to
+    `DegenInv`, part 3 at the level of `NetProblem`; every ordered field with a square root).  `np2` is `np` with other rows,
+    right-hand sides and clusters (same `m`, `n`, `m0`); both are homogenised by `prepareProjectEquations()`; the dense
+    design matrices satisfy `A₂ = D_s A D_t` and the cofactor matrices `C₂ = D_s C D_s` entry by entry (`s, t = ±1`: what
+    `C07_mirror_of_pass` and `C07_mirror_sigma` + `C07_row_sign_link` give).  Then `1 − |ab|/√(aa·bb) < 1e-12` has the same
+    truth value on ANY two columns of the two homogenised matrices.  No `C P = 1` hypothesis: the block factor `L̃` has a
+    right inverse because forward substitution solves `L̃ y = x` for every `x`.  Ingredients (`Lemmas/C07MirrorDegen.lean`):
+    `rightInv`, `gram_mirror`, `colSums_mmk` (the three foldl sums as finite sums), `degenD_sign`, `degenTest_mirror`. -/
+theorem C07_degen_test_mirror {K : Type} [Field K] [LinearOrder K] [IsStrictOrderedRing K] [SqrtFn K]
+    (hsq : IsSqrt (SqrtFn.sq : K → K)) (np : NetProblem K)
+    (r2 : Array (Array (Nat × K))) (b2 : Array K) (c2 : List (Cluster K))
+    (hdim : (dimsN np).sum = np.m)
+    (hdim2 : (dimsN { np with rows := r2, rhs := b2, clusters := c2 }).sum = np.m)
+    (h h2 : Hom K) (hp : prepare np = .ok h) (hp2 : prepare { np with rows := r2, rhs := b2, clusters := c2 } = .ok h2)
+    (s : Fin (toProblem np).m → K) (t : Nat → K) (hs : ∀ i, s i = 1 ∨ s i = -1) (ht : ∀ j, t j = 1 ∨ t j = -1)
+    (hA : ∀ (i : Fin (toProblem np).m) (j : Fin (toProblem np).n),
+      Dn.mget (denseA { np with rows := r2, rhs := b2, clusters := c2 }) i.val j.val
+        = s i * Dn.mget (denseA np) i.val j.val * t j.val)
+    (hC : ∀ i j : Fin (toProblem np).m,
+      (toProblem { np with rows := r2, rhs := b2, clusters := c2 }).C i j = s i * (toProblem np).C i j * s j)
+    (ix iy : Nat) : SingularCoords.degenTest h2.Ad ix iy = SingularCoords.degenTest h.Ad ix iy :=
+  C07Degen.degenTest_prepare hsq np r2 b2 c2 hdim hdim2 h h2 hp hp2 s t hs ht hA hC ix iy
 
 
 /-- non-vacuity (ℚ): one active cluster `(dx, dy)` with `cov(dx, dy) = 3` and the pattern `[false, true]`; the hypotheses
